@@ -62,8 +62,10 @@ class Offers:
             self.buf = self.buf[j + 18:]
             if b"<starttls" in blk and b"urn:ietf:params:xml:ns:xmpp-tls" in blk:
                 self.starttls = True
-            for m in re.finditer(rb"<mechanism>([^<]*)</mechanism>", blk):
-                self.mechs.add(m.group(1).decode("latin1").upper())
+            for m in re.finditer(rb"<mechanism>(.*?)</mechanism>", blk, re.S):
+                # the offered name is the element's text (its string value, child elements ignored)
+                txt = re.sub(rb"<[^>]*>", b"", m.group(1))
+                self.mechs.add(txt.decode("latin1").upper())
             if b"<bind" in blk:
                 self.bind = True
             if b"<session" in blk:
